@@ -1,13 +1,14 @@
 #!/bin/bash
 # usage: seed_prep.sh <ID> <tag>   — creates worktree /tmp/seed-<ID>-<tag> at /repo HEAD and the prompt file /tmp/seedprompt-<ID>-<tag>.txt
-ID=$1; TAG=$2; WT=/tmp/seed-$ID-$TAG
+ID=$1; TAG=$2; EXTRA="${3:-}"; WT=/tmp/seed-$ID-$TAG
 git -C /repo worktree add $WT HEAD >/dev/null 2>&1 || { echo "worktree failed"; exit 1; }
-python3 - "$ID" "$WT" "$TAG" <<'PY'
+python3 - "$ID" "$WT" "$TAG" "$EXTRA" <<'PY'
 import json,sys
-pid,wt,tag=sys.argv[1:4]
+pid,wt,tag,extra=sys.argv[1:5]
 props={json.loads(l)['id']:json.loads(l) for l in open('/verif/properties.jsonl')}
 p=props[pid]; t=open('/verif/tools/seed_prompt.txt').read()
 t=t.replace('{WT}',wt).replace('{ID}',pid).replace('{TITLE}',p['title']).replace('{STATEMENT}',p['statement']).replace('{QUANT}',p['quantifier']['text'])
+if extra: t+="\n\nIMPORTANT: a previous engineer already produced the following change for this property; yours must use a DIFFERENT mechanism at a DIFFERENT code site (ideally a different source file or API entry point, and a different clause of the property): "+extra+"\n"
 open('/tmp/seedprompt-%s-%s.txt'%(pid,tag),'w').write(t)
 PY
 echo "$WT ready"
